@@ -28,6 +28,12 @@ type c12Cfg struct {
 	Indexes bool   `json:"indexes"`
 	Seed    int64  `json:"seed"`
 	Steps   int    `json:"steps"`
+	// Prologue: how the history starts. "" (a failed Init, seed2 created and updated by the
+	// application, then Init) | "all-precreated" (the application creates every seed id itself
+	// before the first Init, which therefore adds nothing; a seed deleted afterwards stays
+	// deleted) | "empty-first-init" (the first Init has no seeds at all: the store is
+	// initialized from then on and a later Init with seeds adds nothing)
+	Prologue string `json:"prologue,omitempty"`
 }
 
 type c12Params struct {
@@ -65,7 +71,8 @@ func init() {
 		Parallel: 8,
 		Batches: func(seed int64, tier core.Tier) []core.Batch {
 			var bs []core.Batch
-			cfgs := []c12Cfg{{false, "pfx", true, seed, 0}, {true, "", true, seed + 1, 0}, {false, "", false, seed + 2, 0}, {true, "p2", false, seed + 3, 0}}
+			cfgs := []c12Cfg{{false, "pfx", true, seed, 0, ""}, {true, "", true, seed + 1, 0, ""}, {false, "", false, seed + 2, 0, ""}, {true, "p2", false, seed + 3, 0, ""}}
+			cfgs[0].Prologue, cfgs[1].Prologue, cfgs[2].Prologue = "", "all-precreated", "empty-first-init"
 			for i, cf := range cfgs {
 				cf.Steps = tierPick(tier, 10, 40)
 				// split the point list over batches to use the cores
@@ -104,6 +111,13 @@ func c12Ops(cfg c12Cfg) []c12Op {
 	ops := []c12Op{{Kind: "init-bad", Bad: true}, {Kind: "create", ID: "seed2", U: "own2", K: "b"}, {Kind: "update", ID: "seed2", U: "own2b", K: "ba"}, {Kind: "init"}, {Kind: "create", ID: "x1", U: "first", K: "ab"}, {Kind: "update", ID: "x1", U: "second", K: "b"},
 		{Kind: "create", ID: "x3", U: "nan1", K: "a", Bad: true}, {Kind: "update", ID: "x1", U: "nan2", K: "a", Bad: true},
 		{Kind: "update", ID: "seed1", U: "s1b", K: "z"}, {Kind: "delete", ID: "x1"}, {Kind: "create", ID: "x2", U: "third", K: ""}}
+	switch cfg.Prologue {
+	case "all-precreated":
+		ops = []c12Op{{Kind: "create", ID: "seed1", U: "own1", K: "c"}, {Kind: "create", ID: "seed2", U: "own2", K: "b"}, {Kind: "create", ID: "seed3", U: "own3", K: ""}, {Kind: "update", ID: "seed3", U: "own3b", K: "ab"},
+			{Kind: "init"}, {Kind: "delete", ID: "seed1"}, {Kind: "init"}, {Kind: "create", ID: "x1", U: "first", K: "ab"}, {Kind: "flush"}, {Kind: "delete", ID: "seed3"}, {Kind: "init"}}
+	case "empty-first-init":
+		ops = []c12Op{{Kind: "init-empty"}, {Kind: "create", ID: "x1", U: "first", K: "ab"}, {Kind: "init"}, {Kind: "create", ID: "seed1", U: "own1", K: "c"}, {Kind: "init"}, {Kind: "update", ID: "x1", U: "second", K: "b"}}
+	}
 	for i := 0; i < cfg.Steps; i++ {
 		id := c12IDs[r.Intn(len(c12IDs))]
 		k := idxKeys[r.Intn(6)]
@@ -191,6 +205,8 @@ func (s *c12Store) apply(op c12Op, typed bool) error {
 	case "init-bad":
 		_, err := s.initSeeds(typed, true)
 		return err
+	case "init-empty":
+		return s.st.Init(func(add func(id string, v interface{})) error { return nil })
 	case "flush":
 		if s.qs != nil {
 			s.qs.Flush()
@@ -333,6 +349,10 @@ func (m *c12Model) applyModel(op c12Op) bool {
 		return false // an unencodable value can never be applied
 	}
 	switch op.Kind {
+	case "init-empty":
+		// an Init without seeds initializes the store all the same
+		m.Inited = true
+		return true
 	case "init":
 		if !m.Inited {
 			for id, s := range c12Seeds {
